@@ -236,6 +236,25 @@ func c17Case(t *rapid.T, extreme bool) {
 		W := k.total()
 		helper := &skUT{bud: bud}
 		before := helper.fullObs(src, k, sc)
+		// a scale factor that puts the scaled lower bound of the lowest source bin of one side exactly (within rounding)
+		// on a bin bound of the target mapping - the other bounds coincide too only if both mappings are logarithmic
+		if rel != "aligned" && mag == 1 && !extreme && rapid.IntRange(0, 4).Draw(t, "binratio") == 0 {
+			lowest := math.Inf(1)
+			for _, x := range k.vals {
+				if a := math.Abs(x.V); a > 0 && a < lowest {
+					lowest = a
+				}
+			}
+			if !math.IsInf(lowest, 1) {
+				i0 := m1.Index(lowest)
+				j := m2.Index(m1.LowerBound(i0)) + rapid.IntRange(-40, 40).Draw(t, "binratioshift")
+				if f := m2.LowerBound(j) / m1.LowerBound(i0); f >= 1e-3 && f <= 1e3 {
+					scale = f
+					cl.logf("scale := %v (bound of target bin %d over bound of source bin %d)", scale, j, i0)
+					cl.label("scale:bound-ratio")
+				}
+			}
+		}
 
 		// ---- conversion
 		res := src.ChangeMapping(m2, tgtKind.Provider(), scale)
